@@ -405,6 +405,7 @@ func runC19Cmd(t *testing.T, c simrt.Chooser, o Opts) *Out {
 	}
 	var passes []passRec
 	seen := map[probeKey]int{}
+	total := map[probeKey]int{}
 	cur := passRec{}
 	for i, f := range cr.Wire {
 		kx, _, err := probeOf("arp", f.Data, false)
@@ -419,6 +420,14 @@ func runC19Cmd(t *testing.T, c simrt.Chooser, o Opts) *Out {
 		if cur.n == 0 {
 			cur.first = f.T
 		}
+		total[kx]++
+		if stalls {
+			// With a stalling NIC the packet-generator workers run at different speeds: a frame of pass
+			// k+1 may reach the wire before the last frames of pass k (no order is promised across the
+			// parallel workers), so the wire log cannot be cut into passes by position; the per-target
+			// totals are compared after the loop instead.
+			continue
+		}
 		seen[kx]++
 		if seen[kx] > 1 {
 			out.violate("C19.pass-structure", sig+"/dup", "argv %v: %v probed twice within pass %d (frame %d at %v; pass started at %v, %d of %d targets done)", sc.World.Argv, kx, len(passes), i, f.T, cur.first, cur.n, ntargets)
@@ -430,6 +439,28 @@ func runC19Cmd(t *testing.T, c simrt.Chooser, o Opts) *Out {
 			passes = append(passes, cur)
 			cur = passRec{}
 			seen = map[probeKey]int{}
+		}
+	}
+	if stalls {
+		lo, hi := -1, 0
+		var loK, hiK probeKey
+		for _, k := range sortedProbeKeys(want) {
+			n := total[k]
+			if lo < 0 || n < lo {
+				lo, loK = n, k
+			}
+			if n > hi {
+				hi, hiK = n, k
+			}
+		}
+		// every pass probes every target once: totals differ by the pass cut by the Ctrl-C and by
+		// one pass of overtaking at most
+		if hi-lo > 2 {
+			out.violate("C19.pass-structure", sig+"/uneven", "argv %v: %v was probed %d times, %v %d times until the Ctrl-C: passes do not probe every target exactly once", sc.World.Argv, hiK, hi, loK, lo)
+		}
+		out.Stats["passes"] += lo
+		if lo >= 3 {
+			simrtProbe(&cr.Res, "three-passes")
 		}
 	}
 	out.Stats["passes"] += len(passes)
